@@ -204,6 +204,10 @@ def rand_body(r, kw, depth, budget, hdr=False):
         a = Assign(attr, op, Ref(val))
         if op in ('+=', '*=') and r.random() < 0.6:
             a.sep = Lit(',')
+            if r.random() < 0.25:
+                # a separator that may match the empty string
+                from tv.refpeg import Re
+                a.sep = Re(r.choice([',?', ';?']))
         return Seq([kw(), a])
     def nn():
         e = rand_body(r, kw, depth + 1, budget, hdr)
